@@ -152,7 +152,7 @@ Proof.
 Qed.
 
 Lemma apply_ev_fire c e tau : fire (apply_ev c e tau) = fire c.
-Proof. unfold apply_ev. destruct (status c); [|reflexivity]. destruct e; reflexivity. Qed.
+Proof. unfold apply_ev, apply_ev_v. destruct (status c); [|reflexivity]. destruct e; reflexivity. Qed.
 
 Lemma step_fire c x : fire (step c x) = fire c.
 Proof. unfold step. rewrite apply_ev_fire, advance_fire. reflexivity. Qed.
@@ -201,7 +201,7 @@ Proof.
   intros H. destruct x as [e tau]. unfold step; cbn [fst snd].
   pose proof (advance_upto f c tau H) as [Hf Hs].
   split; [rewrite apply_ev_fire; exact Hf|].
-  unfold apply_ev. destruct (status (advance c tau)) eqn:Ea; [|rewrite Ea; exact Hs].
+  unfold apply_ev, apply_ev_v. destruct (status (advance c tau)) eqn:Ea; [|rewrite Ea; exact Hs].
   (* the event found the connection open at tau: so tau < fire *)
   assert (Hlt : tau < f).
   { destruct H as [Hf0 Hs0]. destruct (status c) eqn:Ec.
@@ -282,7 +282,7 @@ Proof.
   - unfold step; cbn [fst snd].
     pose proof (alive_advance f np out c tau Ha Hw) as [Hf Hs].
     split; [rewrite apply_ev_fire; exact Hf|].
-    unfold apply_ev. destruct (status (advance c tau)) eqn:Es; [|rewrite Es; exact Hs].
+    unfold apply_ev, apply_ev_v. destruct (status (advance c tau)) eqn:Es; [|rewrite Es; exact Hs].
     unfold wf, window_end in *.
     destruct e, out as [p|]; try discriminate; try contradiction;
       cbn [status deadline close_with]; try rewrite Es;
@@ -307,7 +307,7 @@ Lemma run_as_fold c evs h : run c evs h = fold_left step (evs ++ [(EDataIn, h)])
 Proof.
   unfold run. rewrite fold_left_app. cbn [fold_left].
   set (c1 := fold_left step evs c). unfold step; cbn [fst snd].
-  unfold apply_ev. destruct (status (advance c1 h)); reflexivity.
+  unfold apply_ev, apply_ev_v. destruct (status (advance c1 h)); reflexivity.
 Qed.
 
 (* nothing but the expiry timer ends a connection whose client answers pings *)
@@ -365,7 +365,7 @@ Proof.
   induction evs as [|[e tau] r IH]; intros c Hfc Hh Hev Hc; cbn [fold_left]; [exact Hc|].
   inversion Hev as [|x l Htau Hr]; subst x l. cbn [snd] in Htau.
   apply IH; [rewrite step_fire; exact Hfc|exact Hh|exact Hr|].
-  unfold step; cbn [fst snd]. unfold apply_ev.
+  unfold step; cbn [fst snd]. unfold apply_ev, apply_ev_v.
   assert (Hadv : match status (advance c tau) with Closed Expiry _ => False | _ => True end).
   { unfold advance. destruct (status c) eqn:Ec; [|rewrite Ec; exact Hc].
     destruct ((fire c <=? tau) && (fire c <=? deadline c)) eqn:E1; cbn [status].
@@ -427,9 +427,9 @@ Proof.
     assert (Hst : step c (EPing, np) = apply_ev (advance c np) EPing np) by reflexivity.
     destruct (status (advance c np)) eqn:Ea.
     - apply IH.
-      + rewrite Hst. unfold apply_ev. rewrite Ea. reflexivity.
+      + rewrite Hst. unfold apply_ev, apply_ev_v. rewrite Ea. reflexivity.
       + rewrite step_fire. exact Hfc.
-      + rewrite Hst. unfold apply_ev. rewrite Ea. cbn [deadline]. rewrite advance_deadline. exact Hdc.
+      + rewrite Hst. unfold apply_ev, apply_ev_v. rewrite Ea. cbn [deadline]. rewrite advance_deadline. exact Hdc.
       + unfold_consts; lia.
     - (* closed during advance: by ReadTimeout (expiry is later than the deadline) *)
       assert (Hw : why = ReadTimeout /\ at_ns = t + pong_wait).
@@ -442,14 +442,14 @@ Proof.
                 fold_left step evs c0 = c0).
       { induction evs as [|x r IHr]; intros c0 Hc0; cbn [fold_left]; [reflexivity|].
         assert (Hs : step c0 x = c0).
-        { unfold step, advance, apply_ev. rewrite Hc0. rewrite Hc0. reflexivity. }
+        { unfold step, advance, apply_ev, apply_ev_v. rewrite Hc0. rewrite Hc0. reflexivity. }
         rewrite Hs. apply IHr; exact Hc0. }
       assert (Hc1 : status (step c (EPing, np)) = Closed ReadTimeout (t + pong_wait)).
-      { rewrite Hst. unfold apply_ev. rewrite Ea. exact Ea. }
+      { rewrite Hst. unfold apply_ev, apply_ev_v. rewrite Ea. exact Ea. }
       rewrite (Hstay _ _ Hc1).
       split; [rewrite step_fire; exact Hfc|].
       split; [|right; exact Hc1].
-      rewrite Hst. unfold apply_ev. rewrite Ea. rewrite advance_deadline. exact Hdc. }
+      rewrite Hst. unfold apply_ev, apply_ev_v. rewrite Ea. rewrite advance_deadline. exact Hdc. }
   destruct (Hgen k (t + ping_period) (start t f) eq_refl eq_refl eq_refl) as (Hf1 & Hd1 & Hs1); [unfold_consts; lia|].
   set (c1 := fold_left step (pings_only (t + ping_period) k) (start t f)) in *.
   unfold advance. destruct Hs1 as [Hs1|Hs1]; rewrite Hs1; cbv iota; [|exact Hs1].
@@ -466,3 +466,26 @@ Proof. exists 2000000000, 500000000. vm_compute. repeat split; congruence. Qed.
 
 Lemma cancel_seen_at_fire f b : cancel_seen f b = f.
 Proof. reflexivity. Qed.
+
+(* The ping must set its own write deadline.  In the variant where it goes out under the deadline
+   the last DATA write left behind, a connection that was sent one message and then nothing for
+   more than writeWait loses its first ping (the stale deadline is in the past), writePump returns
+   and the relay itself closes a healthy connection long before its expiry - although the client
+   answers every ping in time. *)
+Lemma stale_deadline_kills_quiet_connection :
+  exists t f evs h a,
+    timely (t + ping_period) None (evs ++ [(EDataIn, h)]) = true /\
+    status (run_v false (start t f) evs h) = Closed WriteTimeout a /\ a + 200 * ns_per_s < f /\
+    status (run (start t f) evs h) = Open.
+Proof.
+  exists 1700000000000000000, (1700000000000000000 + 300 * ns_per_s),
+         [(EDataOut, 1700000000000000000 + ns_per_s); (EPing, 1700000000000000000 + ping_period)],
+         (1700000000000000000 + 57 * ns_per_s), (1700000000000000000 + ping_period).
+  vm_compute. repeat split; congruence.
+Qed.
+
+(* the variant is harmless only while no data write has ever happened or the last one is recent *)
+Lemma stale_deadline_needs_old_write c tau :
+  status c = Open -> write_fails c tau = false ->
+  status (apply_ev_v false c EPing tau) = Open.
+Proof. intros Ho Hw. unfold apply_ev_v. rewrite Ho, Hw. reflexivity. Qed.
